@@ -191,31 +191,15 @@ theorem C16_onstop_fires (s : State) (ha : s.onStopArmed = true) (hst : s.blockS
   unfold connectionEnd streamFailed runEnd
   simp [hst, ha]
 
-/-- `handleBlock` on the block of a cancelled request (handler dropped): the request is completed
-    (the node is idle again), nothing is handed to anybody, and the message is consumed to exactly
-    its declared length. -/
-theorem hBlock_cancelled (e : Env) (s : State) (L : Nat) (inp : Bytes) (h80 : 80 ≤ L) (hL : L < two64)
-    (ha : L ≤ inp.length) (hreq : s.blockReq = some (e.hash (inp.take 80))) (hh : s.blockHandler = false) :
-    Sound L (hBlock e s L inp) ∧ (hBlock e s L inp).st = completeBlock s (e.hash (inp.take 80)) ∧
-    (hBlock e s L inp).fx = [] := by
-  have hn : ¬ inp.length < 80 := by omega
-  unfold hBlock
-  simp only [readN, hn, ↓reduceIte, hreq, ne_eq, not_true_eq_false, hh, Bool.not_false]
-  exact ⟨finish_sound L _ _ hL ha h80 (by simp) (by simp), rfl, rfl⟩
-
-/-- **cancel before the block message, then the block arrives.** The block frame is consumed to
-    exactly its length (the next message — e.g. a ping, `C14_ping_after_any_sequence` — starts
-    right behind it) or the connection ends; never waiting, never blocked. -/
+/-- **cancel before the block message, then the block arrives** (`C14_block_cancelled_exact`): the
+    block frame is consumed to exactly its length (the next message — e.g. a ping,
+    `C14_ping_after_any_sequence` — starts right behind it) or the connection ends. -/
 theorem C16_cancelled_block_exact (e : Env) (he : EnvOk e) (s : State) (cmd p rest : Bytes)
     (hc : wfCmd cmd) (hp : p.length < 2 ^ 32) (h80 : 80 ≤ p.length)
     (hl : lookupCmd s.table cmd = some .block) (hreq : s.blockReq = some (e.hash (p.take 80)))
     (hh : s.blockHandler = false) :
-    ExactOrEnd rest (handleMessage e s (classicFrame e cmd p ++ rest)) := by
-  rw [handleMessage_classic e he s cmd p rest hc hp, hl]
-  apply toOutcome_exact p.length p rest _ rfl
-  have h80' : (p ++ rest).take 80 = p.take 80 := List.take_append_of_le_length h80
-  exact (hBlock_cancelled e s p.length (p ++ rest) h80 (by unfold two64; omega) (by simp)
-    (by rw [h80']; exact hreq) hh).1
+    ExactOrEnd rest (handleMessage e s (classicFrame e cmd p ++ rest)) :=
+  C14_block_cancelled_exact e he s cmd p rest hc hp h80 hl hreq hh
 
 /-- after `completeBlock` of the outstanding request the node is idle. -/
 theorem C16_complete_clears (s : State) (h : Bytes) (hq : s.blockReq = some h) :
